@@ -51,7 +51,8 @@ def quote(s):
 
 
 class TextGrammar:
-    def __init__(self, rules, terms=None, ignores=None, named_ignores=None, order=None):
+    def __init__(self, rules, terms=None, ignores=None, named_ignores=None, order=None, re_ignores=None):
+        self.re_ignores = dict(re_ignores or {})        # NAME -> regex   (NAME: /regex/  %ignore NAME)
         self.rules = rules
         self.terms = dict(terms or {})
         self.ignores = list(ignores or [])
@@ -103,6 +104,8 @@ class TextGrammar:
                 chars |= set(p[1])
         for s in self.ignores:
             chars |= set(s)
+        if self.re_ignores or any(d[0] == 're' and not d[2] for d in self.terms.values()):
+            chars |= set('ab-')
         return sorted(chars)
 
     # ---- text ---------------------------------------------------------------------------------
@@ -116,14 +119,19 @@ class TextGrammar:
         for name, d in self.terms.items():
             if d[0] == 'str':
                 lines.append('%s: %s' % (name, quote(d[1])))
-            else:
+            elif d[2]:
                 lines.append('%%import %s' % d[2])
+            else:
+                lines.append('%s: /%s/' % (name, d[1]))
         for s in self.ignores:
             if s in self.named_ignores:
                 lines.append('%s: %s' % (self.named_ignores[s], quote(s)))
                 lines.append('%%ignore %s' % self.named_ignores[s])
             else:
                 lines.append('%%ignore %s' % quote(s))
+        for name, rx in self.re_ignores.items():
+            lines.append('%s: /%s/' % (name, rx))
+            lines.append('%%ignore %s' % name)
         return '\n'.join(lines) + '\n'
 
     def describe(self):
@@ -252,7 +260,8 @@ def bounded_sentences(tg, maxlen, cap=400):
         if p[0] == 'str':
             samples[p] = [p[1]]
         else:
-            samples[p] = [x for imp in KNOWN_IMPORTS.values() if imp[1] == p[1] for x in imp[2]]
+            samples[p] = ([x for imp in KNOWN_IMPORTS.values() if imp[1] == p[1] for x in imp[2]]
+                          or REGEX_SAMPLES.get(p[1], []))
     S = {}
     changed = True
     while changed:
@@ -395,6 +404,52 @@ def gen_anon_grammar(rng):
     return tg
 
 
+REGEX_POOL = ['a+', 'ab?', '[ab]', 'a|ab', 'ab|a', '(a|b)+', 'a-?', 'b+', '-+', 'a*b', '(a|ab)(c|bcd)?', 'a[ab]*', 'ba?',
+              '(ab)+', 'a+b+']
+REGEX_SAMPLES = {'a+': ['a', 'aa'], 'ab?': ['a', 'ab'], '[ab]': ['a', 'b'], 'a|ab': ['a', 'ab'], 'ab|a': ['ab', 'a'],
+                 '(a|b)+': ['a', 'ba'], 'a-?': ['a', 'a-'], 'b+': ['b', 'bb'], '-+': ['-', '--'], 'a*b': ['b', 'ab'],
+                 '(a|ab)(c|bcd)?': ['a', 'abcd', 'abc'], 'a[ab]*': ['a', 'aba'], 'ba?': ['b', 'ba'], '(ab)+': ['ab', 'abab'],
+                 'a+b+': ['ab', 'aabb']}
+
+
+def gen_regex_grammar(rng):
+    """named regexp terminals (several match lengths, alternations whose first alternative is not the longest),
+    string literals, and string / regexp %ignore terminals; for the model tie of the dynamic lexers (the text-level
+    oracle does not apply to these)"""
+    names = ['TA', 'TB', 'TC']
+    terms = {}
+    for nm in rng.sample(names, rng.randint(1, 3)):
+        terms[nm] = ('re', rng.choice(REGEX_POOL), None)
+    lits = rng.sample(['a', 'b', '-', 'ab', 'b-', 'c', 'd', 'ba'], rng.randint(1, 3))
+    syms = [('term', nm) for nm in terms] + [('lit', s) for s in lits]
+    nts = ['start'] + rng.sample(['x', 'y'], rng.choice([0, 1, 1, 2]))
+
+    def sym():
+        if len(nts) > 1 and rng.random() < 0.3:
+            return ('nt', rng.choice(nts))
+        return rng.choice(syms)
+
+    rules = {}
+    for n in nts:
+        alts = []
+        for _ in range(rng.randint(1, 3)):
+            ln = 0 if (n != 'start' and rng.random() < 0.15) else rng.randint(1, 3)
+            alts.append([sym() for _ in range(ln)])
+        rules[n] = _dedup(alts)
+    if rng.random() < 0.3:
+        rules['start'].append([('nt', 'start'), rng.choice(syms)])
+        rules['start'] = _dedup(rules['start'])
+    ignores, re_ignores = [], {}
+    r = rng.random()
+    if r < 0.35:
+        ignores = rng.sample(['-', '--', ' ', '-a'], rng.randint(1, 2))
+    elif r < 0.6:
+        re_ignores['IG'] = rng.choice(['-+', ' +', '-|--', '(-a)+'])
+    tg = TextGrammar(rules, terms, ignores, {}, nts, re_ignores).prune()
+    tg.samples = REGEX_SAMPLES
+    return tg
+
+
 # ---------------------------------------------------------------------------------------------
 def gen_inputs(rng, tg, exhaustive_len, n_sent, n_mut, n_concat=0, max_sent_len=8):
     alphabet = tg.alphabet() or ['a']
@@ -412,14 +467,16 @@ def gen_inputs(rng, tg, exhaustive_len, n_sent, n_mut, n_concat=0, max_sent_len=
             add(s, 'exhaustive')
     sents = bounded_sentences(tg, max_sent_len)
     pool = sents if len(sents) <= n_sent else rng.sample(sents, n_sent)
-    pieces = tg.ignores or ['']
+    pieces = (tg.ignores + [x for rx in tg.re_ignores.values() for x in ({'-+': ['-', '--'], ' +': [' '], '-|--': ['-', '--'], '(-a)+': ['-a']}.get(rx, []))]) or ['']
     for s in pool:
         add(s, 'sentence')
     strings = [p[1] for p in tg.patterns() if p[0] == 'str'] + [x for p in tg.patterns() if p[0] == 're'
                                                                 for imp in KNOWN_IMPORTS.values() if imp[1] == p[1]
                                                                 for x in imp[2]]
+    strings += [x for p in tg.patterns() if p[0] == 're' for x in REGEX_SAMPLES.get(p[1], [])]
+    strings = strings or ['a']
     # sentences with ignored text spliced in at token-ish boundaries and elsewhere
-    if tg.ignores:
+    if tg.ignores or tg.re_ignores:
         for s in pool:
             for _ in range(2):
                 t = s
